@@ -1,12 +1,17 @@
 """Run `ro += msg` for recorded (running order text, message text) pairs in THIS (fresh) interpreter,
-in the order given; used by the C13 check to compare with what a long-lived process produced."""
+in the order given; used to compare with what the long-lived checking process observed.
+  python [-O] [-W ...] -m harness.sub_merge in.json out.json [ambient]
+`ambient`: warnings are recorded under the interpreter's own filter configuration (whatever -W and the
+library's import left in place) instead of the harness's simplefilter('always')."""
 import json
 import sys
+import warnings
 
 
 def main():
     inp, outp = sys.argv[1], sys.argv[2]
-    from harness import impl
+    ambient = len(sys.argv) > 3 and sys.argv[3] == 'ambient'
+    from harness import impl, treejson
     with open(inp) as f:
         pairs = json.load(f)
     res = []
@@ -16,10 +21,19 @@ def main():
         except Exception as e:  # noqa: BLE001 - the documents were read by the long-lived process
             res.append({'err': 'not-read:' + str(impl.err_name(e)), 'warns': [], 'text': None})
             continue
-        o = impl.add(ro, mo)
-        res.append({'err': o['err'], 'warns': o['warns'], 'text': str(ro)})
+        if ambient:
+            err = None
+            with warnings.catch_warnings(record=True) as w:
+                try:
+                    ro + mo
+                except Exception as e:  # noqa: BLE001
+                    err = impl.err_name(e)
+            res.append({'err': err, 'warns': impl.lib_warnings(w), 'text': str(ro)})
+        else:
+            o = impl.add(ro, mo)
+            res.append({'err': o['err'], 'warns': o['warns'], 'text': str(ro)})
     with open(outp, 'w') as f:
-        json.dump({'results': res}, f)
+        json.dump({'results': res, 'optimize': sys.flags.optimize}, f)
 
 
 if __name__ == '__main__':
